@@ -188,6 +188,27 @@ def check(ctx):
         if not ok:
             viol("R-C07.3", f"no-semicolon:{cls}", f"a {cls} node used as a statement is printed without ';' (it is not in _generate_stmt's list): the following statement is glued to it", "CGenerator._generate_stmt", gs)
 
+    # ... and only the visitors of constructs that C itself ends with ';' (the jump statements and the null statement) return text that ends in ';':
+    # every other construct gets its terminator from the place that uses it as a statement, so a visitor that adds one of its own prints two - the
+    # second is an empty statement (or a syntax error inside an expression) when the text is parsed again
+    OWN_TERMINATOR = {"EmptyStatement", "Return", "Break", "Continue", "Goto"}
+    for vname, vfn in sorted(g.methods.items()):
+        if not vname.startswith("visit_"):
+            continue
+        for r_ in ast.walk(vfn):
+            if not (isinstance(r_, ast.Return) and r_.value is not None):
+                continue
+            e_ = r_.value
+            while isinstance(e_, ast.BinOp):
+                e_ = e_.right
+            tail = e_.value if isinstance(e_, ast.Constant) and isinstance(e_.value, str) else (str(e_.values[-1].value) if isinstance(e_, ast.JoinedStr) and e_.values and isinstance(e_.values[-1], ast.Constant) else "")
+            ends = tail.rstrip().endswith(";")
+            ok = (not ends) or vname[6:] in OWN_TERMINATOR
+            ctx.oblige("R-C07.3", f"{vname}: return at line {r_.lineno} ends with ';' only for a self-terminated statement", ok, nontrivial=ends)
+            if not ok:
+                viol("R-C07.3", f"own-semicolon:{vname[6:]}", f"{vname} returns text that ends in ';' (`{S.unparse(r_)[:70]}`), but a {vname[6:]} is not a construct C terminates itself: where it is used as a statement the generator adds the terminator, "
+                     "so the text has two - a second, empty statement appears when it is parsed again", f"CGenerator.{vname}", r_)
+
     # ---- R-C07.4 ---------------------------------------------------------------------------
     spec = A.parse_cfg()
     for cname, entries, _ in spec:
